@@ -2,7 +2,7 @@
    Print Assumptions beneath.  Definitions: C06/Model.v, C06/LibPy.v (tables: C06/Gen.v, regenerated);
    domains: C06/Proofs*.v.  str = list N (code points), Ok/Err = the exception monad. *)
 From Coq Require Import ZArith.
-From Wz Require Import lib.Bytes lib.Utf8 C06.LibPy C06.Gen C06.Model C06.Proofs C06.Proofs2 C06.Proofs3 C06.Proofs4 C07.Gen C07.Model C06.Proofs5 C06.Proofs6 C06.ProofsQuoted C06.ProofsAuth.
+From Wz Require Import lib.Bytes lib.Utf8 C06.LibPy C06.Gen C06.Model C06.Proofs C06.Proofs2 C06.Proofs3 C06.Proofs4 C07.Gen C07.Model C06.Proofs5 C06.Proofs6 C06.ProofsQuoted C06.ProofsAuth C07.Proofs C06.Proofs7.
 Open Scope N_scope.
 
 (* the regex texts the hand-written matchers stand for are those of the current source *)
@@ -63,7 +63,8 @@ Example C06_options_inhabited :
 Proof. vm_compute. reflexivity. Qed.
 Print Assumptions C06_options_inhabited.
 
-(* entity tags: strong and weak tags without double quote and line feed (empty ones included), or the star tag *)
+(* entity tags: strong and weak tags that are tag_ok (no line feed, no double quote followed after blanks by a comma; every tag
+   without a double quote is one: C06_etags_simple_domain), empty ones included, or the star tag *)
 Theorem C06_etags : forall e, etag_domain e = true -> parse_etags (etags_to_header e) = Ok e.
 Proof. exact etags_roundtrip. Qed.
 Print Assumptions C06_etags.
@@ -311,3 +312,56 @@ Theorem C06_options_normal_form_refuted :
   exists s h o t r, parse_options_header s = Ok (h, o) /\ dump_options_header h o = Ok t /\ parse_options_header t = Ok r /\ r <> (h, o).
 Proof. exact options_normal_form_refuted. Qed.
 Print Assumptions C06_options_normal_form_refuted.
+
+(* ------------------------------------------------------------------ dates: the three accepted shapes, normal form *)
+(* parse_date_shapes models parse_date on IMF-fixdate (any zone word), RFC 850 (two-digit year, pivot 68/69) and asctime texts
+   and is compared with the implementation on such texts; on what http_date writes for a valid instant with year >= 100 it
+   returns exactly the fields, in UTC *)
+Theorem C06_date_shapes_canonical : forall f, instant_fields_ok f = true ->
+  parse_date_shapes (format_http_date f) = Some (f_day f, f_mon f, f_year f, f_hour f, f_min f, f_sec f, 0%Z).
+Proof. exact date_shapes_canonical. Qed.
+Print Assumptions C06_date_shapes_canonical.
+Example C06_date_shapes_inhabited :
+  instant_fields_ok {| f_wday := 6; f_day := 6; f_mon := 11; f_year := 1994; f_hour := 8; f_min := 49; f_sec := 37 |} = true
+  /\ parse_date_shapes [83; 117; 110; 100; 97; 121; 44; 32; 48; 54; 45; 78; 111; 118; 45; 57; 52; 32; 48; 56; 58; 52; 57; 58; 51; 55; 32; 71; 77; 84]
+     = Some (6, 11, 1994, 8, 49, 37, 0%Z)
+  /\ parse_date_shapes [83; 117; 110; 32; 78; 111; 118; 32; 32; 54; 32; 48; 56; 58; 52; 57; 58; 51; 55; 32; 49; 57; 57; 52] = Some (6, 11, 1994, 8, 49, 37, 0%Z)
+  /\ parse_date_shapes [83; 117; 110; 44; 32; 48; 54; 32; 78; 111; 118; 32; 49; 57; 57; 52; 32; 48; 56; 58; 52; 57; 58; 51; 55; 32; 69; 83; 84]
+     = Some (6, 11, 1994, 8, 49, 37, (-300)%Z).
+Proof. repeat split; vm_compute; reflexivity. Qed.
+Print Assumptions C06_date_shapes_inhabited.
+(* outside the property's domain (years 1000..9999): a year below 100 is written 00yy and read back through the pivot *)
+Theorem C06_date_small_year_refuted :
+  exists f, fields_ok f = true /\ parse_date_shapes (format_http_date f) <> Some (f_day f, f_mon f, f_year f, f_hour f, f_min f, f_sec f, 0%Z).
+Proof. exact date_small_year_refuted. Qed.
+Print Assumptions C06_date_small_year_refuted.
+(* normal form over the calendar contract: any text of the three shapes that parse_date reads as an instant i is, after
+   http_date, read as i again (the contract: an instant's UTC fields are valid, year >= 100, and the constructor inverts them) *)
+Theorem C06_date_normal_form : forall (instant : Type) (fields_of : instant -> date_fields)
+  (instant_at : N * N * N * N * N * N * Z -> option instant),
+  (forall i, instant_fields_ok (fields_of i) = true) ->
+  (forall i, instant_at (f_day (fields_of i), f_mon (fields_of i), f_year (fields_of i),
+                         f_hour (fields_of i), f_min (fields_of i), f_sec (fields_of i), 0%Z) = Some i) ->
+  forall t i, parse_date_full instant instant_at t = Some i ->
+  parse_date_full instant instant_at (http_date_full instant fields_of i) = parse_date_full instant instant_at t.
+Proof. exact date_normal_form. Qed.
+Print Assumptions C06_date_normal_form.
+
+(* ------------------------------------------------------------------ entity tags: the unconditional normal form *)
+(* the property's tag domain (no double quote, no line feed) lies inside the round-trip domain of C06_etags *)
+Theorem C06_etags_simple_domain : forall x, simple_tag x = true -> tag_ok x = true.
+Proof. exact simple_tag_ok. Qed.
+Print Assumptions C06_etags_simple_domain.
+(* whatever parse_etags returns lies in the round-trip domain (tags cut out of quotes or out of raw text never hold a
+   double quote that is followed by blanks and a comma) ... *)
+Theorem C06_parse_etags_in_domain : forall h e, parse_etags h = Ok e -> etag_domain e = true.
+Proof. exact parse_etags_domain. Qed.
+Print Assumptions C06_parse_etags_in_domain.
+(* ... so parsing is a normal form for every header text that parses at all (C07_total_parse_etags: every text without a line feed) *)
+Theorem C06_etags_normal_form : forall h e, parse_etags h = Ok e -> parse_etags (etags_to_header e) = parse_etags h.
+Proof. exact etags_normal_form. Qed.
+Print Assumptions C06_etags_normal_form.
+
+(* Accept headers: the class-specific values (MIMEAccept, LanguageAccept, CharsetAccept) are C17's model; their
+   to_header -> parse round trip is C17_to_header_roundtrip (coq/C17/Props.v) and is not duplicated here; the parse loop
+   they share is C07_total_parse_accept_items / C07_total_request_accept. *)
